@@ -649,7 +649,7 @@ func (self *Value) findMapEntry(from int, pos int) int {
 			return -1 // not a run of length-delimited records
 		}
 		length, n2 := protowire.ConsumeVarint(buf[at+n1:])
-		if n2 < 0 || length > uint64(len(buf)) {
+		if n2 < 0 || length > uint64(len(buf)-at-n1-n2) {
 			return -1
 		}
 		end := at + n1 + n2 + int(length)
